@@ -61,21 +61,10 @@ def check(ctx):
     gc = repo.cls(GM, "GaussianElectionModel")
     gf = ctx.fn(GM, "GaussianElectionModel.get_aggregate_prediction_intervals")
     gs = mb.summarize(gf, self_cls=gc)
+    from ..frames import vector_value
+
     def bound_value(t):
-        """per-group vector handed back as a bound -> frame-algebra value: a table column (rounded or not), or a Series group sum"""
-        while t[0] == "call" and t[1][0] == "attr" and t[1][2] in ("round", "reset_index", "copy", "astype"):
-            t = t[1][1]
-        if t[0] == "attr" and t[2] == "values":
-            t = t[1]
-        if t[0] == "sub" and t[2][0] in ("const", "fstr"):
-            return F.col(t[1], t[2])
-        if t[0] == "attr" and t[2] not in ("values", "T", "index", "columns", "iloc", "loc"):
-            return F.col(t[1], ("const", t[2]))  # attribute-style column access
-        if t[0] == "call" and t[1][0] == "attr" and t[1][2] == "sum" and t[1][1][0] == "sub":
-            g_, c_ = t[1][1][1], t[1][1][2]
-            if g_[0] == "call" and g_[1][0] == "attr" and g_[1][2] == "groupby" and c_[0] in ("const", "fstr"):
-                return ("gsum", g_[1][1], F.col(g_[1][1], c_), g_[2][0])
-        raise AnalysisError(f"returned bound {ir.show(t, maxdepth=4)} is neither a table column nor a group sum")
+        return vector_value(F, t)
 
     quantities = [(bf, "counted votes", F.col(tab, res)), (bf, "prediction", F.col(tab, fname("pred_")))]
     nret = ns.ret()
